@@ -390,8 +390,12 @@ def write_evidence(mod, pid, tier, seed_value, results, replays_run, kf_lines, n
         "wall_s": round(wall, 2),
         "violations": nviol,
     }
-    os.makedirs(os.path.join(ROOT, "evidence"), exist_ok=True)
-    path = os.path.join(ROOT, "evidence", f"{pid}.json")
+    edir = os.path.join(ROOT, "evidence")
+    if os.path.realpath(os.environ.get("VERIF_REPO", "/repo")) != "/repo":
+        # self-test runs against scratch copies never touch the committed evidence
+        edir = os.path.join(tempfile.gettempdir(), "verif-scratch-evidence")
+    os.makedirs(edir, exist_ok=True)
+    path = os.path.join(edir, f"{pid}.json")
     tmp = path + ".tmp"
     with open(tmp, "w") as f:
         json.dump(doc, f, indent=1)
